@@ -41,7 +41,19 @@ def shards(tier, seed):
     nmax = 5 if tier == 'quick' else 6
     parts = 6 if tier == 'quick' else 32
     out += [dict(kind='small', part=i, parts=parts, nmax=nmax) for i in range(parts)]
+    out += [dict(kind='ladder', part=i, n=12 if tier == 'quick' else 150) for i in range(4)]
     return out
+
+
+def ladder_spec(k, hub=None):
+    """saturated ladder with k rungs (two chains joined rung by rung): written in random order such a molecule keeps ten and more
+    ring closures open at once, i.e. the two-digit closure numbers %10, %11 ... occur after every kind of atom token"""
+    atoms = [['C', 0, None, False] for _ in range(2 * k)]
+    bonds = [[i, i + 1, 1] for i in range(k - 1)] + [[k + i, k + i + 1, 1] for i in range(k - 1)] + [[i, k + i, 1] for i in range(k)]
+    if hub:
+        for i in range(0, 2 * k, 5):
+            atoms[i][0] = hub
+    return {'k': 'graph', 'atoms': atoms, 'bonds': bonds, 'stereo': []}
 
 
 def run_shard(shard, tier, seed):
@@ -51,6 +63,13 @@ def run_shard(shard, tier, seed):
         strat = st.fixed_dictionaries({'stereo_of': molgen.mol_specs(max_atoms=12, corpus_w=3, curated_w=3, graph_w=3,
                                                                      literal_w=1, sym_w=6)})
         return hyp_run(ID, strat, check_case, max_examples=shard['n'], seed=seed * 1000 + 100 + shard['shard'])
+    if shard['kind'] == 'ladder':
+        cases = []
+        for i in range(shard['n']):
+            sd = seed * 7919 + shard['part'] * 1000 + i
+            cases.append({'mol': ladder_spec(11 + (sd % 4), [None, 'N', 'B', 'Si'][shard['part']]),
+                          'fmt': ['r', 'ra', ['rh', 'rA', 'r', 'rm'][i % 4]], 'seed': sd})
+        return direct_run(ID, cases, check_case)
     return small_graphs(shard)
 
 
@@ -121,8 +140,11 @@ def check_case(case, rec):
         want = molgen.map_snapshot(snap, mp)
         if sx != want:
             diff = [(n, want[n], sx.get(n)) for n in want if want[n] != sx.get(n)][:3]
-            rec.fail('atomwise', f'{str(m)!r} --{f!r}--> {text!r}: {diff}',
-                     sig='aromatic-P-ambiguity' if wl.aromatic_p_ambiguity(m) else ('A' if 'A' in f else ('h' if 'h' in f else '')))
+            sig = 'aromatic-P-ambiguity' if wl.aromatic_p_ambiguity(m) else ('A' if 'A' in f else ('h' if 'h' in f else ''))
+            if sig in ('', 'h') and sum(b.order == 4 for *_, b in m.bonds()) != sum(b.order == 4 for *_, b in x.bonds()) and \
+                    not _mcb_unique(m):
+                sig = 'thiele-mcb-not-unique'
+            rec.fail('atomwise', f'{str(m)!r} --{f!r}--> {text!r}: {diff}', sig=sig)
             continue
         d = molgen.compare_stereo(m, x, mp)
         if d:
